@@ -42,6 +42,9 @@ atexit.register(_cleanup)
 
 
 def quiet_redun():
+    import warnings
+
+    warnings.filterwarnings("ignore")
     logging.getLogger("redun").setLevel(logging.CRITICAL + 10)
     logging.getLogger("redun").disabled = True
     logging.getLogger("alembic").setLevel(logging.CRITICAL + 10)
